@@ -41,6 +41,26 @@ PATHS = ["x", "x/y/z", "a/b/c", "a/b/c/d/e", "l/new", "l/n1/n2", "abs/b/deep/er"
 MODES = [0o755, 0o700, 0o1777, 0o750, 0o555, 0o500, 0o070, 0o1055, 0o000, 0o444, 0o711, 0o007]
 
 
+def plain_chain_should_succeed(path, before):
+    """Conservative: the path is made of plain names only (no '.', '..', no empty component but a single leading or trailing
+    '/'); walking it from the root, every component that exists is a real directory (not a link) up to the first missing one,
+    and nothing exists after that.  Then mkdir_all (as root) has nothing to refuse."""
+    comps = path.strip(b"/").split(b"/") if path.strip(b"/") else []
+    if not comps or any(c in (b"", b".", b"..") for c in comps) or path.startswith(b"//") or path.endswith(b"//"):
+        return False
+    cur = b"root"
+    missing = False
+    for c in comps:
+        nxt = cur + b"/" + c
+        if nxt in before:
+            if missing or (before[nxt][1] & 0o170000) != 0o040000:
+                return False
+        else:
+            missing = True
+        cur = nxt
+    return True
+
+
 def run(ck):
     rng = random.Random(ck.seed)
     thorough = ck.tier == "thorough"
@@ -184,6 +204,9 @@ def run(ck):
                     samples.append(desc)
             else:
                 stats["failed"] += 1
+                if plain_chain_should_succeed(unhex(op["path"]), before):
+                    ck.violation("C12: mkdir_all failed although every existing component of its path is a directory of the root's tree and "
+                                 "the rest are plain names that do not exist", desc)
             if rng.random() < (0.5 if thorough else 0.3) and res.get("trace"):
                 cfg = warm_config(res["_warm"])
                 prog, enc = M.op_program({"op": op, "rflags": job.get("rflags", 0)}, res, cfg, ps)
